@@ -529,7 +529,15 @@ for opname in ('intersect', 'difference'):
     res = run_fn_raw(f, [A, B])
     print('  encode Range::%s (KA=%d,KB=%d): %.2fs  panics recorded=%d' % (opname, KA, KB, time.time() - t, len(PANICS)))
     want = z3.And(admA, admB) if opname == 'intersect' else z3.And(admA, z3.Not(admB))
-    m = check('Range::%s pointwise (rank=%s)' % (opname, RANK), HA + HB + wf(v), adm_opt_range(res, v) == want)
+    hyp = HA + HB + wf(v)
+    if os.environ.get('NOTIES'):
+        rks = [z3.Extract(3, 0, v.fs[3].fs[0].t)]
+        for b in Abs + Bbs:
+            for p in (b.fs[1].vs[0][0], b.fs[0].vs[1][0]):
+                rks.append(z3.Extract(3, 0, ite(p.tag == 1, p.vs[1][0], p.vs[0][0]).fs[3].fs[0].t))
+        hyp = hyp + [z3.Distinct(*rks)]
+    if os.environ.get('ONLY') and os.environ['ONLY'] != opname: continue
+    m = check('Range::%s pointwise (rank=%s, noties=%s)' % (opname, RANK, bool(os.environ.get('NOTIES'))), hyp, adm_opt_range(res, v) == want)
     if m:
         print('   cex: A=%s  B=%s  v.rank=%s' % (' || '.join(show_bs(m, b) for b in Abs), ' || '.join(show_bs(m, b) for b in Bbs), m.eval(z3.Extract(3, 0, v.fs[3].fs[0].t))))
         def rk(b):
